@@ -89,7 +89,7 @@ func init() {
 				{Name: "error-rendering", Pkg: pkgSchema, Harness: "HarnessC12ErrorRendering", Params: map[string]int64{"n": pick(tier, 3, 5)}, Reach: []string{"c12.render"}},
 				{Name: "endpoints-agree", Pkg: pkgSchema, Harness: "HarnessC12Endpoints", Params: map[string]int64{"n": pick(tier, 3, 4), "alphabet": 1}, Overrides: map[string]string{"io.ReadAll": "verifReadAll"}, Reach: []string{"c12.endpoints"}},
 				{Name: "pumped-lexemes", Pkg: pkgSchema, Harness: "HarnessC12Pump", Params: map[string]int64{}, Reach: []string{"c12.pump.returned"}},
-				{Name: "parser-tokens", Pkg: pkgSchema, Harness: "HarnessC12ParserTokens", Params: map[string]int64{"L": pick(tier, 4, 6)}, Overrides: map[string]string{"(*github.com/ory/keto/internal/schema.lexer).nextNonCommentItem": "verifNextToken12"}, Reach: []string{"c12.tokens.done"}, Budget: time.Duration(pick(tier, 240, 1800)) * time.Second},
+				{Name: "parser-tokens", Pkg: pkgSchema, Harness: "HarnessC12ParserTokens", Params: map[string]int64{"L": pick(tier, 4, 5)}, Overrides: map[string]string{"(*github.com/ory/keto/internal/schema.lexer).nextNonCommentItem": "verifNextToken12"}, Reach: []string{"c12.tokens.done"}, Budget: time.Duration(pick(tier, 240, 1800)) * time.Second},
 			}
 		},
 		Bounds: func(tier string) map[string]interface{} {
@@ -99,7 +99,7 @@ func init() {
 				"error rendering": "inputs of length 0.." + itoa(pick(tier, 3, 5)) + " over {\\n,' ',a,\\t,0xC3,0xA9,0xFF}, every 0 <= Start <= End <= len",
 				"endpoints":       "REST and gRPC syntax check on every byte string of length 0.." + itoa(pick(tier, 3, 4)) + " over printable ASCII, blanks, newlines and multi-byte/invalid UTF-8 bytes: same error count and positions as the parser on the submitted document",
 				"pumped lexemes":  "46 lexemes (every single-rune token, operators, identifiers, keywords, string and comment openers, invalid bytes, small token groups) x repetition 19, 20, 21, 22, 41, 64 x separator {none, blank, newline} x 3 prefixes x 3 suffixes, concrete text through the real lexer (items channel of capacity 20) and parser",
-				"parser tokens":   "every token sequence of length <= " + itoa(pick(tier, 4, 6)) + " over the token alphabet after 'class N implements Namespace {' (viable prefixes, by forking)",
+				"parser tokens":   "every token sequence of length <= " + itoa(pick(tier, 4, 5)) + " over the token alphabet after 'class N implements Namespace {' (viable prefixes, by forking)",
 			}
 		},
 		Outside:     []string{"longer inputs", "asymptotic linearity (only step counters within the bound are asserted)", "the syntax-check HTTP/gRPC handlers' transport layers"},
@@ -171,8 +171,9 @@ func init() {
 			if tier == "thorough" {
 				return []Run{
 					mk("plain-and-schemaless", 0, 4, 2, 0, 0),
-					mk("operator-pairs", 1, 3, 2, 0, 0),
-					mk("and-not-below-expansion", 2, 3, 3, 0, 0),
+					mk("operator-pairs", 1, 2, 2, 0, 0),
+					mk("operator-set-three-rows", 4, 3, 2, 0, 1),
+					mk("and-not-below-expansion", 2, 3, 2, 0, 0),
 					lemmaP(tier),
 				}
 			}
@@ -185,14 +186,14 @@ func init() {
 		},
 		Bounds: func(tier string) map[string]interface{} {
 			return map[string]interface{}{
-				"store":          "K symbolic rows (present flag, object, relation, subject id or subject set all symbolic over the pools); K = 2..3 (quick), 3..4 (thorough) per configuration family",
+				"store":          "K symbolic rows (present flag, object, relation, subject id or subject set all symbolic over the pools); K = 2..3 (quick); thorough: 4 (plain), 2 (every operator pair), 3 (operator set, default mode; && and ! below an expansion) per configuration family",
 				"pools":          "one namespace, 2-3 objects, the declared relations and permissions of the configuration, 2 subject ids",
 				"configurations": "families of concrete rewrite ASTs: plain/schemaless, every operator pair over includes / traverse / permits, && and ! below a subject-set expansion; default and strict mode",
 				"query":          "object o0 and subject u0 without loss of generality (names are only compared for equality), every declared relation",
 				"schedules":      "the engine's goroutines under the deterministic run-to-block scheduler, every resolution of ready select cases (delay bound 0)",
 			}
 		},
-		Outside: []string{"stores with more rows, more than one namespace, rewrite depth > 2", "schedules beyond the deterministic scheduler (delay bound 0)", "data with a dependency cycle through a negation (assumption A2)", "the SQL persister/traverser (the engine runs on MemStore, the in-memory specification of storage)"},
+		Outside: []string{"stores with more rows, more than two namespaces, rewrite depth > 2", "schedules beyond the deterministic scheduler (delay bound 0)", "data with a dependency cycle through a negation (assumption A2)", "the SQL persister/traverser (the engine runs on MemStore, the in-memory specification of storage)"},
 		Assumptions: []string{
 			"reference semantics RefSem: well-founded semantics of the relationship graph computed as a formula over the symbolic rows (alternating fixed point), mode rules as in checkIsAllowed",
 			"A1: rows and queries name only declared relations", "A2: no dependency cycle through a negation reachable from the query",
@@ -206,22 +207,26 @@ func init() {
 	register(&Property{
 		ID:          "C02",
 		Preflight:   [][2]string{{"TestVerifShapes", pkgZZ}},
+		NoReplay:    map[string]string{"HarnessC02DepthParam": "strconv.ParseInt is replaced by a stub that exists only under the executor (the counterexample names the number)", "HarnessC02WidthRespected": "the assertion is over the executor's ghost counters (expansion results vs. subject sets followed); natively there is no hook to count them"},
 		Patterns:    enginePatterns,
-		HarnessDirs: []string{"internal/check/zzverif"},
+		HarnessDirs: []string{"internal/check/zzverif", "internal/check"},
 		ReplayTags:  "sqlite",
 		Assumptions: engineAssumptions,
-		Outside:     append([]string{"global depths and widths above Gmax/Wmax"}, engineOutside...),
+		Outside:     append([]string{"global depths and widths above Gmax/Wmax", "the text-to-number step of the max-depth parameter (strconv.ParseInt is a stub: symbolic digit strings through the real function did not finish beyond 4 digits)"}, engineOutside...),
 		Bounds: func(tier string) map[string]interface{} {
-			return map[string]interface{}{"rows": pick(tier, 2, 3), "objects": 2, "request depth": "fully symbolic int (64 bit)", "global depth": "1.." + itoa(pick(tier, 3, 4)), "width": "1.." + itoa(pick(tier, 2, 3)), "configurations": "operator set (quick) / every operator pair (thorough), both modes"}
+			return map[string]interface{}{"rows": 2, "objects": 2, "request depth": "fully symbolic int (64 bit); REST parameter: strconv.ParseInt replaced by a stub returning an arbitrary 64-bit number", "global depth": "1.." + itoa(pick(tier, 3, 4)), "width": "1.." + itoa(pick(tier, 2, 3)), "width accounting": "plain configurations, " + itoa(pick(tier, 3, 4)) + " rows: subject sets followed per expansion <= what max-width allows", "configurations": "operator set (quick) / every operator pair (thorough), both modes"}
 		},
 		Runs: func(tier string) []Run {
-			k := pick(tier, 2, 3)
+			k := int64(2)
 			fam := pick(tier, 4, 1)
 			a := engineRun("clamp", "HarnessC02Clamp", map[string]int64{"family": fam, "K": k, "objs": 2, "G": 3, "W": 64, "alts": 2, "setSubjects": 0, "Gmax": pick(tier, 2, 4)})
 			a.Reach = []string{"c02.clamp"}
 			b := engineRun("fail-closed", "HarnessC02FailClosed", map[string]int64{"family": fam, "K": k, "objs": 2, "G": 3, "W": 64, "alts": 2, "setSubjects": 0, "Gmax": pick(tier, 3, 4), "Wmax": pick(tier, 2, 3), "symbolicDepth": 0})
 			b.Reach = []string{"c02.checked"}
-			return []Run{a, b}
+			c := engineRun("width-respected", "HarnessC02WidthRespected", map[string]int64{"family": 0, "K": pick(tier, 3, 4), "objs": 2, "G": 3, "W": 64, "alts": 2, "setSubjects": 0, "Gmax": 3, "Wmax": pick(tier, 2, 3), "modes": 1})
+			c.Reach = []string{"c02.width"}
+			d := Run{Name: "rest-depth-parameter", Pkg: pkgCheck, Harness: "HarnessC02DepthParam", Params: map[string]int64{}, Overrides: map[string]string{"strconv.ParseInt": "verifParseInt"}, Reach: []string{"c02.depth-param"}}
+			return []Run{a, b, c, d}
 		},
 	})
 	register(&Property{
@@ -232,12 +237,12 @@ func init() {
 		Assumptions: append(append([]string{}, engineAssumptions...), sqlAssumptions...),
 		Outside:     append([]string{"batch handlers' mapping of Membership to 'allowed' (covered with the transports, C08)"}, engineOutside...),
 		Bounds: func(tier string) map[string]interface{} {
-			return map[string]interface{}{"rows": itoa(pick(tier, 1, 2)) + " (traversal configurations: 2)", "objects": 2, "failing call": "symbolic k over every storage call position of the fault-free run (+2), transient or persistent (symbolic flag)", "configurations": "operator set (quick) / every operator pair (thorough), both modes",
+			return map[string]interface{}{"rows": "1 (traversal configurations: 2; thorough: the operator set with 2)", "objects": 2, "failing call": "symbolic k over every storage call position of the fault-free run (+2), transient or persistent (symbolic flag)", "configurations": "operator set (quick) / every operator pair (thorough), both modes",
 				"sql layer": "GetRelationTuples / ExistsRelationTuples / TraverseSubjectSetExpansion / TraverseSubjectSetRewrite of the real persister on an arbitrary model table of " + itoa(pick(tier, 2, 3)) + " rows, the 1st, 2nd or 3rd database operation of the call failing"}
 		},
 		NoReplay: map[string]string{"HarnessC03": "the fault is injected into the storage model; the real persister has no fault hook (the counterexample is reported with the symbolic trace)", "HarnessC03SQLFaults": "fault injection at the pop boundary of the database model"},
 		Runs: func(tier string) []Run {
-			a := engineRun("fault-at-k", "HarnessC03", map[string]int64{"family": pick(tier, 4, 1), "K": pick(tier, 1, 2), "objs": 2, "G": 12, "W": 64, "alts": 2, "setSubjects": 0})
+			a := engineRun("fault-at-k", "HarnessC03", map[string]int64{"family": pick(tier, 4, 1), "K": 1, "objs": 2, "G": 12, "W": 64, "alts": 2, "setSubjects": 0})
 			a.Reach = []string{"c03.fault-injected"}
 			// traversals need two rows to succeed: the traversal configurations with K = 2 in the quick tier as well
 			a2 := engineRun("fault-at-k-traversals-two-rows", "HarnessC03", map[string]int64{"family": 5, "K": 2, "objs": 2, "G": 12, "W": 64, "alts": 2, "setSubjects": 0, "modes": pick(tier, 1, 0)})
@@ -250,6 +255,11 @@ func init() {
 			ov["(*github.com/ory/keto/internal/driver/config.Config).StrictMode"] = "dbCfgStrictMode"
 			ov["(*github.com/ory/keto/internal/driver/config.Config).NamespaceManager"] = "dbCfgNamespaceManager"
 			b := Run{Name: "lemma-PF-sql-read-calls-propagate-database-errors", Pkg: pkgSQL, Harness: "HarnessC03SQLFaults", Params: map[string]int64{"K": pick(tier, 2, 3)}, Overrides: ov, Reach: []string{"c03.sql.returned", "c03.sql.fault-hit"}}
+			if tier == "thorough" {
+				a3 := engineRun("fault-at-k-operator-set-two-rows", "HarnessC03", map[string]int64{"family": 4, "K": 2, "objs": 2, "G": 12, "W": 64, "alts": 2, "setSubjects": 0, "modes": 1})
+				a3.Reach = []string{"c03.fault-injected"}
+				return []Run{a, a2, a3, b}
+			}
 			return []Run{a, a2, b}
 		},
 	})
@@ -292,7 +302,7 @@ func init() {
 		Assumptions: []string{"storage = MemStore (spec of relationtuple.Manager), page size 100 / 1 / 2", "schemaless namespace (no rewrites)", "reference: bounded reachability over the symbolic rows as a formula"},
 		Outside:     []string{"more rows / objects than the bound", "nodes with more than 100 children", "ToTree string mapping (C16)", "REST/gRPC expand handlers (C13)"},
 		Runs: func(tier string) []Run {
-			r := engineRun("expand", "HarnessC09", map[string]int64{"K": 3, "objs": pick(tier, 2, 3), "Gmax": pick(tier, 4, 5), "symbolicDepth": pick(tier, 0, 1), "pageSizes": pick(tier, 2, 3), "crossCheck": 1, "diamond": 0})
+			r := engineRun("expand", "HarnessC09", map[string]int64{"K": 3, "objs": 2, "Gmax": pick(tier, 4, 5), "symbolicDepth": pick(tier, 0, 1), "pageSizes": pick(tier, 2, 3), "crossCheck": 1, "diamond": 0})
 			r.Reach = []string{"c09.expanded"}
 			d := engineRun("diamonds", "HarnessC09", map[string]int64{"K": 4, "objs": 2, "Gmax": pick(tier, 3, 4), "symbolicDepth": 0, "pageSizes": pick(tier, 1, 2), "crossCheck": 0, "diamond": pick(tier, 1, 0)})
 			d.Reach = []string{"c09.expanded"}
@@ -453,17 +463,17 @@ func init() {
 			rtsPkg := "github.com/ory/keto/proto/ory/keto/relation_tuples/v1alpha2."
 			out = append(out, Run{Name: "grpc-servers-expose-their-own-services", Pkg: "github.com/ory/keto/internal/driver", Harness: "HarnessC17Servers", Params: map[string]int64{}, Reach: []string{"c17.servers.read", "c17.servers.write", "c17.servers.syntax"},
 				Overrides: map[string]string{
-					"(*github.com/ory/keto/internal/driver.RegistryDefault).newGrpcServer": "verifNewGrpcServer",
-					"(*github.com/ory/keto/internal/driver.RegistryDefault).HealthServer":  "verifHealthServer",
-					"google.golang.org/grpc/health/grpc_health_v1.RegisterHealthServer":    "verifRegHealth",
-					"google.golang.org/grpc/reflection.Register":                          "verifRegReflection",
-					"(*github.com/ory/x/prometheusx.MetricsManager).Register":             "verifPmmRegister",
-					rtsPkg + "RegisterVersionServiceServer":                                "verifRegVersion",
-					rtsPkg + "RegisterReadServiceServer":                                   "verifRegRead",
-					rtsPkg + "RegisterWriteServiceServer":                                  "verifRegWrite",
-					rtsPkg + "RegisterCheckServiceServer":                                  "verifRegCheck",
-					rtsPkg + "RegisterExpandServiceServer":                                 "verifRegExpand",
-					rtsPkg + "RegisterNamespacesServiceServer":                             "verifRegNamespaces",
+					"(*github.com/ory/keto/internal/driver.RegistryDefault).newGrpcServer":        "verifNewGrpcServer",
+					"(*github.com/ory/keto/internal/driver.RegistryDefault).HealthServer":         "verifHealthServer",
+					"google.golang.org/grpc/health/grpc_health_v1.RegisterHealthServer":           "verifRegHealth",
+					"google.golang.org/grpc/reflection.Register":                                  "verifRegReflection",
+					"(*github.com/ory/x/prometheusx.MetricsManager).Register":                     "verifPmmRegister",
+					rtsPkg + "RegisterVersionServiceServer":                                       "verifRegVersion",
+					rtsPkg + "RegisterReadServiceServer":                                          "verifRegRead",
+					rtsPkg + "RegisterWriteServiceServer":                                         "verifRegWrite",
+					rtsPkg + "RegisterCheckServiceServer":                                         "verifRegCheck",
+					rtsPkg + "RegisterExpandServiceServer":                                        "verifRegExpand",
+					rtsPkg + "RegisterNamespacesServiceServer":                                    "verifRegNamespaces",
 					"github.com/ory/keto/proto/ory/keto/opl/v1alpha1.RegisterSyntaxServiceServer": "verifRegSyntax",
 				}})
 			return out
@@ -474,17 +484,24 @@ func init() {
 func init() {
 	register(&Property{
 		ID:          "C19",
+		NoReplay:    map[string]string{"HarnessC19ConfigReload": "NewNamespaceWatcher and (*Config).namespaceConfig are replaced by harness functions, which exist only under the executor"},
 		Patterns:    []string{"github.com/ory/keto/internal/driver/config", pkgSchema, pkgNs, pkgAst, "github.com/ory/x/watcherx", "io"},
 		HarnessDirs: []string{"internal/driver/config"},
 		Assumptions: []string{"the watcher structs are constructed directly; events are delivered by calling handleChange / handleRemove (no fsnotify, no timing)", "documents per file from a pool of four: valid v1, valid v2, syntactically invalid, type-incorrect; file-specific namespace names", "legacy watcher: GetParser replaced by a parser that accepts 'ok:NAME' (symbolic runs; native replay uses real JSON)"},
-		Outside:     []string{"OS file-event delivery and timing, remote (http, base64) targets", "Config.NamespaceManager re-creation on configuration change", "observation by a concurrent reader between two events (the map swap happens under the write lock)"},
+		Outside:     []string{"OS file-event delivery and timing, remote (http, base64) targets", "configx itself (the provider's own change detection); Config.watcher is driven directly", "observation by a concurrent reader between two events (the map swap happens under the write lock)"},
 		Runs: func(tier string) []Run {
 			a := Run{Name: "opl-watcher", Pkg: "github.com/ory/keto/internal/driver/config", Harness: "HarnessC19OPL", Params: map[string]int64{"h": pick(tier, 3, 4)}, Reach: []string{"c19.opl"}}
 			b := Run{Name: "legacy-watcher", Pkg: "github.com/ory/keto/internal/driver/config", Harness: "HarnessC19Legacy", Params: map[string]int64{"h": pick(tier, 3, 5)}, Overrides: map[string]string{"github.com/ory/keto/internal/driver/config.GetParser": "verifGetParser"}, Reach: []string{"c19.legacy"}}
-			return []Run{a, b}
+			c := Run{Name: "config-reload-keeps-manager", Pkg: "github.com/ory/keto/internal/driver/config", Harness: "HarnessC19ConfigReload", Params: map[string]int64{}, Reach: []string{"c19.config"},
+				Overrides: map[string]string{
+					"github.com/ory/keto/internal/driver/config.GetParser":                 "verifGetParser",
+					"github.com/ory/keto/internal/driver/config.NewNamespaceWatcher":       "verifNewNamespaceWatcher",
+					"(*github.com/ory/keto/internal/driver/config.Config).namespaceConfig": "verifLegacyNamespaceConfig",
+				}}
+			return []Run{a, b, c}
 		},
 		Bounds: func(tier string) map[string]interface{} {
-			return map[string]interface{}{"events": "every sequence of " + itoa(pick(tier, 3, 4)) + " (OPL) / " + itoa(pick(tier, 3, 5)) + " (legacy) events over 2 files x {4 documents, remove}", "observation": "after every event"}
+			return map[string]interface{}{"config reload": "legacy URI setting, one file loaded (then optionally invalid), one Config.watcher event with the namespaces setting unchanged or changed", "events": "every sequence of " + itoa(pick(tier, 3, 4)) + " (OPL) / " + itoa(pick(tier, 3, 5)) + " (legacy) events over 2 files x {4 documents, remove}", "observation": "after every event"}
 		},
 	})
 }
@@ -557,12 +574,12 @@ func init() {
 		Assumptions: sqlAssumptions,
 		Outside:     []string{"histories are covered by one inductive step from an arbitrary table, not by enumerating sequences", "the REST/gRPC write handlers on top (mapping + transaction wrapper: C13/C16)", "more rows than K, names outside the pools"},
 		Runs: func(tier string) []Run {
-			r := sqlRun("one-step-from-arbitrary-table", "HarnessC04", map[string]int64{"K": pick(tier, 2, 3), "small": pick(tier, 1, 0), "emptyRel": 1})
+			r := sqlRun("one-step-from-arbitrary-table", "HarnessC04", map[string]int64{"K": 2, "small": pick(tier, 1, 0), "emptyRel": 1})
 			r.Reach = []string{"c04.written", "c04.listed"}
 			return []Run{r}
 		},
 		Bounds: func(tier string) map[string]interface{} {
-			return map[string]interface{}{"rows": pick(tier, 2, 3), "operation": "create 1..2 | delete 1..2 | delete-by-query (16 shapes) | transact 1+1", "query": "all 2^4 nil/non-nil shapes", "networks": 2, "names": "2 namespaces, 3 objects, relations r, s; subject sets also with the empty relation (in requests and, symbolically, in rows)"}
+			return map[string]interface{}{"rows": 2, "operation": "create 1..2 | delete 1..2 | delete-by-query (16 shapes) | transact 1+1 (quick: the reduced operation set)", "query": "all 2^4 nil/non-nil shapes", "networks": 2, "names": "2 namespaces, 3 objects, relations r, s; subject sets also with the empty relation (in requests and, symbolically, in rows)"}
 		},
 	})
 }
@@ -572,7 +589,7 @@ func init() {
 		ID:          "C07",
 		Patterns:    sqlPatterns,
 		HarnessDirs: []string{"internal/persistence/sql"},
-		NoReplay:    map[string]string{"HarnessC07": "arbitrary symbolic table of the database model", "HarnessC07Token": "database model"},
+		NoReplay:    map[string]string{"HarnessC07": "arbitrary symbolic table of the database model", "HarnessC07Token": "database model", "HarnessC07TraverseLarge": "database model"},
 		Assumptions: sqlAssumptions,
 		Outside:     []string{"page sizes above K+1 other than the default", "negative page sizes (C13)", "the internal consumers' loops (expand, traverse: covered with page size 1/2 in C09)", "the 100/101 boundary of the default page size"},
 		Runs: func(tier string) []Run {
@@ -580,10 +597,19 @@ func init() {
 			a.Reach = []string{"c07.iterated"}
 			b := sqlRun("malformed-token", "HarnessC07Token", map[string]int64{})
 			b.Reach = []string{"c07.token"}
-			return []Run{a, b}
+			ov := map[string]string{}
+			for k, v := range dbOverrides {
+				ov[k] = v
+			}
+			ov["(*github.com/ory/keto/internal/driver/config.Config).StrictMode"] = "dbCfgStrictMode"
+			ov["(*github.com/ory/keto/internal/driver/config.Config).NamespaceManager"] = "dbCfgNamespaceManager"
+			ov["(*github.com/ory/keto/internal/driver/config.Config).MaxReadWidth"] = "dbCfgMaxReadWidth"
+			ov["(*github.com/gobuffalo/pop/v6.Query).All"] = "dbQueryAllSummary"
+			c := Run{Name: "traverser-pages-of-1000", Pkg: pkgSQL, Harness: "HarnessC07TraverseLarge", Params: map[string]int64{"large": pick(tier, 0, 1)}, Overrides: ov, MaxSteps: 20000000000, Reach: []string{"c07.traverse-large"}}
+			return []Run{a, b, c}
 		},
 		Bounds: func(tier string) map[string]interface{} {
-			return map[string]interface{}{"rows": pick(tier, 2, 3), "page size": "symbolic 0..K+1 (0 = default 100)", "query": "all 2^4 shapes, symbolic names", "interleaved write": "none | insert of an arbitrary relationship (any free shard position) | deletion of one row, after page 1 or 2"}
+			return map[string]interface{}{"rows": pick(tier, 2, 3), "page size": "symbolic 0..K+1 (0 = default 100)", "query": "all 2^4 shapes, symbolic names", "traverser": "the subject-set expansion's own page loop (1000 rows) on concrete nodes of 1000, 1001 (thorough: 999, 1000, 1001, 2000, 2001) subject sets with the member beyond the last page or absent", "interleaved write": "none | insert of an arbitrary relationship (any free shard position) | deletion of one row, after page 1 or 2"}
 		},
 	})
 	register(&Property{
@@ -622,7 +648,7 @@ func init() {
 			}
 			ov["(*github.com/ory/keto/internal/driver/config.Config).StrictMode"] = "dbCfgStrictMode"
 			ov["(*github.com/ory/keto/internal/driver/config.Config).NamespaceManager"] = "dbCfgNamespaceManager"
-			a := sqlRun("write-and-list", "HarnessC04", map[string]int64{"K": pick(tier, 2, 3), "small": 0})
+			a := sqlRun("write-and-list", "HarnessC04", map[string]int64{"K": 2, "small": 0, "emptyRel": pick(tier, 0, 1)})
 			a.Reach = []string{"c04.written", "c04.listed"}
 			b := Run{Name: "traversals", Pkg: pkgSQL, Harness: "HarnessC06Traverse", Params: map[string]int64{"K": pick(tier, 2, 3)}, Overrides: ov, Reach: []string{"c06.expansion", "c06.rewrite"}}
 			// the caller's network comes from the request context (contextualizer), the persister was created for the other network
@@ -633,7 +659,7 @@ func init() {
 		},
 		OnlyMsgPrefix: "",
 		Bounds: func(tier string) map[string]interface{} {
-			return map[string]interface{}{"rows": pick(tier, 2, 3), "networks": 2, "operations": "create / delete / delete-by-query / transact under network A; list, exists, subject-set expansion and rewrite traversal under network A; the same with the network taken from the request context by a contextualizer while the persister was created for network B"}
+			return map[string]interface{}{"rows": "2 (traversals: " + itoa(pick(tier, 2, 3)) + ")", "networks": 2, "operations": "create / delete / delete-by-query / transact under network A; list, exists, subject-set expansion and rewrite traversal under network A; the same with the network taken from the request context by a contextualizer while the persister was created for network B"}
 		},
 	})
 }
